@@ -19,7 +19,7 @@ for f in sorted(glob.glob(os.path.join(HERE, "..", "lean", "TTProps", "*.lean"))
             ns = m.group(1)
         m = re.match(r"\s*(?:protected\s+)?theorem\s+(\S+)", ln)
         if m and ns:
-            pm = re.search(r"\b(C\d\d)\b", ns.replace(".", " "))
+            pm = re.search(r"\b(C\d\d)[a-z]?\b", ns.replace(".", " "))
             if pm:
                 reg.setdefault(pm.group(1), []).append(ns + "." + m.group(1))
 json.dump(reg, open(os.path.join(HERE, "theorems.json"), "w"), indent=1, sort_keys=True)
